@@ -146,6 +146,13 @@ CORPUS = [
     ["append", "append2", "delete:whole", "readd-fail", "gc", "readd-fail", "append", "gc"],
     # failed commits between real ones, cleaned by collection, then deletes of whole manifests
     ["append", "failed-append", "append2", "failed-delete", "gc", "delete:whole", "failed-append", "gc", "delcur", "gc"],
+    # the clock steps back, then an expiry whose cutoff lies between the two: the CURRENT snapshot survives although older than the cutoff;
+    # deleting a later current snapshot must come back to it (most recently committed survivor)
+    ["append@1000", "append@-600", "expire:ts1", "append@100", "delcur", "gc", "append@100", "delcur"],
+    # a bound on the metadata LOG is not a bound on snapshots
+    ["prevmax:2", "append", "append", "append", "append", "prevmax:1", "append", "append", "gc"],
+    # markers of a COMMITTED transaction left behind (cleanup failed after the commit point), collection days later
+    ["append", "append-keepmarkers", "gc-late", "append", "append-keepmarkers", "delete:whole", "gc-late", "gc"],
 ]
 
 
@@ -182,6 +189,24 @@ def _one_history(ctx, rep, rng, path, model_ok, hi, script=None):
             try:
                 if kind == "append":
                     t.append_records(tablekit.rows(rng.randint(1, 3), start=si * 100))
+                    tok = f"c:{now}:{h.next_snap}:-:1:-"
+                elif kind == "append-keepmarkers":
+                    # a commit whose best-effort marker cleanup AFTER the commit point fails: the markers of a COMMITTED transaction stay behind
+                    st_ = t.storage
+                    od_ = st_.delete_file
+
+                    def nodel(p_, *a_, _o=od_, **k_):
+                        if "inflight" in str(p_):
+                            raise OSError(5, "injected: marker delete failed")
+                        return _o(p_, *a_, **k_)
+                    st_.delete_file = nodel
+                    try:
+                        t.append_records(tablekit.rows(2, start=si * 100))
+                    finally:
+                        try:
+                            del st_.delete_file
+                        except AttributeError:
+                            st_.delete_file = od_
                     tok = f"c:{now}:{h.next_snap}:-:1:-"
                 elif kind == "append2":
                     with t.new_transaction() as tx:
@@ -298,8 +323,8 @@ def _one_history(ctx, rep, rng, path, model_ok, hi, script=None):
                         rep.violate("C09:operation-raises:readd-fail:not-raised", "a transaction naming a missing file committed", case)
                         return
                     tok = ("f", 0, "-")
-                elif kind == "gc":
-                    old = time.time() - 7200
+                elif kind in ("gc", "gc-late"):
+                    old = time.time() - (7200 if kind == "gc" else 3 * 86400)       # gc-late: past the marker abandonment window too
                     for r, _d, fs in os.walk(path):
                         for f in fs:
                             try:
@@ -310,6 +335,14 @@ def _one_history(ctx, rep, rng, path, model_ok, hi, script=None):
                     tok = "g"
                 elif kind == "reopen":
                     t = tablekit.load(path)
+                    continue
+                elif kind == "prevmax":
+                    # bound the metadata LOG (previous metadata files kept): says nothing about snapshots
+                    import copy
+                    b_ = t.metadata_manager.refresh()
+                    n_ = copy.deepcopy(b_)
+                    n_.properties["write.metadata.previous-versions-max"] = str(arg or 2)
+                    t.metadata_manager.commit(b_, n_)
                     continue
             except Exception as e:      # noqa: BLE001
                 rep.violate(f"C09:operation-raises:{kind}:{type(e).__name__}", f"{kind} raises {type(e).__name__}: {str(e)[:120]}", case)
@@ -380,6 +413,13 @@ def _one_history(ctx, rep, rng, path, model_ok, hi, script=None):
                         return
                 except Exception as e:      # noqa: BLE001
                     rep.violate("C09:retained-snapshot-unreadable", f"after {kind}: library read of snapshot #{o}: {type(e).__name__}: {str(e)[:100]}", case)
+                    return
+            # ---- oracle 1a: a snapshot leaves the table only through an expiry or an explicit deletion (no retention count is ever configured here)
+            if kind not in ("expire", "append+expire", "delsnap", "delcur"):
+                still_ = {s["id"] for s in v["snaps"]}
+                gone_ = [h.snap_ord[i_] for i_ in ids_before if i_ not in still_]
+                if gone_:
+                    rep.violate("C09:snapshot-vanished-without-expiry-or-deletion", f"after {kind}: snapshots #{gone_} are no longer retained", case)
                     return
             # ---- oracle 1b: an expiry removes only snapshots OLDER than its cutoff (and never the current one)
             if kind in ("expire", "append+expire") and tok and tok[0] in "ce":
